@@ -150,6 +150,7 @@ Section RoundTrip.
   Variable B : N.
   Hypothesis HB : 22 <= B.
   Variable max_array max_bulk : Z.
+  Variable max_depth : N.
   Variable mn mx : Z.
   Hypothesis Hmm : (mn <= mx)%Z.
   Let T := mk_itoa_tab mn mx.
@@ -228,10 +229,11 @@ Section RoundTrip.
   Lemma rbyte_cons b l e : snd (o_rbyte O (fs (b :: l) e)) = fs l e.
   Proof. reflexivity. Qed.
 
-  Theorem roundtrip v : wf max_array max_bulk v -> forall fuel rest e, (depth v < fuel)%nat ->
-    decode frd O max_array max_bulk fuel (fs (encode T v ++ rest) e) = (Ok v, fs rest e).
+  Theorem roundtrip v : wf max_array max_bulk v -> forall fuel d rest e, (depth v < fuel)%nat ->
+    d + N.of_nat (depth v) <= max_depth ->
+    decode frd O max_array max_bulk max_depth fuel d (fs (encode T v ++ rest) e) = (Ok v, fs rest e).
   Proof.
-    induction v as [t|t|z|o| |l IHl] using resp_ind2; intros Hwf fuel rest e Hd;
+    induction v as [t|t|z|o| |l IHl] using resp_ind2; intros Hwf fuel d rest e Hd Hdm;
       (destruct fuel as [|f]; [lia|]).
     - cbn [encode wf] in *. cbn [decode app]. rewrite peek_cons, rbyte_cons.
       change (is_type_byte T_SIMPLE) with true.
@@ -257,11 +259,11 @@ Section RoundTrip.
       change (T_ARR =? T_ERR) with false. change (T_ARR =? T_BULK) with false. cbv iota.
       rewrite decode_int_ok by reflexivity.
       destruct (Z.ltb_spec (-1) (-1)); [lia|]. destruct (Z.gtb_spec (-1) max_array); [lia|]. reflexivity.
-    - apply wf_arr in Hwf. destruct Hwf as [Hlen Hall]. rewrite depth_arr in Hd.
-      assert (HF : Forall (fun x => forall rest0, decode frd O max_array max_bulk f (fs (encode T x ++ rest0) e) = (Ok x, fs rest0 e)) l).
-      { clear Hlen. revert Hall Hd. induction IHl as [|x l Hx Hl IH]; intros Hall Hd; constructor.
-        - intros rest0. cbn [wf_list depth_list] in Hall, Hd. apply Hx; [tauto | lia].
-        - cbn [wf_list depth_list] in Hall, Hd. apply IH; [tauto | lia]. }
+    - apply wf_arr in Hwf. destruct Hwf as [Hlen Hall]. rewrite depth_arr in Hd, Hdm.
+      assert (HF : Forall (fun x => forall rest0, decode frd O max_array max_bulk max_depth f (d + 1) (fs (encode T x ++ rest0) e) = (Ok x, fs rest0 e)) l).
+      { clear Hlen. revert Hall Hd Hdm. induction IHl as [|x l Hx Hl IH]; intros Hall Hd Hdm; constructor.
+        - intros rest0. cbn [wf_list depth_list] in Hall, Hd, Hdm. apply Hx; [tauto | lia | lia].
+        - cbn [wf_list depth_list] in Hall, Hd, Hdm. apply IH; [tauto | lia | lia]. }
       rewrite encode_arr. cbn [decode app]. rewrite peek_cons, rbyte_cons.
       change (is_type_byte T_ARR) with true.
       change (T_ARR =? T_INT) with false. change (T_ARR =? T_SIMPLE) with false.
@@ -269,7 +271,8 @@ Section RoundTrip.
       rewrite <- app_assoc. rewrite decode_int_ok by (apply in_int64_small; lia).
       destruct (Z.ltb_spec (Z.of_N (lenN l)) (-1)); [lia|]. destruct (Z.gtb_spec (Z.of_N (lenN l)) max_array); [lia|].
       destruct (Z.eqb_spec (Z.of_N (lenN l)) (-1)); [lia|].
+      destruct (N.leb_spec max_depth d); [lia|].
       replace (Z.to_nat (Z.of_N (lenN l))) with (length l) by (rewrite lenN_length; lia).
-      rewrite (elems_ok (decode frd O max_array max_bulk f) e l); [reflexivity | exact HF].
+      rewrite (elems_ok (decode frd O max_array max_bulk max_depth f (d + 1)) e l); [reflexivity | exact HF].
   Qed.
 End RoundTrip.
